@@ -67,6 +67,7 @@ class Decoder:
     base: int
     reads: list = field(default_factory=list)
     late_skips: list = field(default_factory=list)  # (mask set, node)
+    multi_bit: list = field(default_factory=list)  # (mask, advance, node): ``if flags & <several bits>: offset += k``
     header: dict = field(default_factory=dict)  # name -> (node, slice text)
     kinds: list = field(default_factory=list)  # (type expr text, class name, args, node)
     shape: str = "straight-line"
@@ -249,9 +250,11 @@ def extract_decoder(repo: Repo, rel="cell.py", qual="Cell._from_storage") -> Dec
                 skipped=read is None,
             )
         )
-        # every bit of a multi-bit mask is not supported in an if-test
+        # a test on several bits at once cannot advance by a per-bit amount
         if bin(m).count("1") != 1:
-            raise AnalysisError(f"decoder: multi-bit mask {m:#x} in a conditional read")
+            dec.reads.pop()
+            dec.multi_bit.append((m, advance, s))
+            return
         accounted[m] = accounted.get(m, 0) + advance
 
     def handle_unconditional(s):
